@@ -118,7 +118,7 @@ theorem sound_of_marking_op (q : Q) (s : State) (pre post : List (Nat × Ev)) (n
 /-- soundness for any change of the entry made by a step whose operations all mark what they change -/
 theorem sound_of_change (q : Q) (s : State) (pre post : List (Nat × Ev)) (now : Nat) (ev : Ev) (c : Nat) (w : W)
     (nowE : Nat) (ops : List Op)
-    (hi : Inv q s) (hsafe : Safe q s pre = true)
+    (hi : Inv q s) (hsafe : Safe q s pre = true) (hsafeEv : stepSafe q (run q s pre) now ev = true)
     (hquiet : ∀ e ∈ pre ++ (now, ev) :: post, quiet q c e.2 = true)
     (hw : w ∈ (s.conn c).watched)
     (hok : evMarksOk q (run q s pre) now ev = true)
@@ -130,6 +130,7 @@ theorem sound_of_change (q : Q) (s : State) (pre post : List (Nat × Ev)) (now :
   have hw1 : w ∈ ((run q s pre).conn c).watched := by rw [hq1.1]; exact hw
   have ha := active_pos_of_watched q _ hi1 c w hw1
   have := step_changed_marks q (run q s pre) now ev w.regDb w.key hi1.tok hok hch ha
+    (fun c' keys e => by subst e; exact hsafeEv)
   exact sound_core q s pre post now ev c w nowE ops hi hsafe hquiet hw this hin
 
 /-! ### forgetting, per connection -/
@@ -147,7 +148,7 @@ theorem conn_step_other (q : Q) (s : State) (now : Nat) (ev : Ev) (c' : Nat) (h 
     rw [step_watch]
     split
     · rfl
-    · exact conn_watchAll_other q c s keys c' hc
+    · exact conn_watchAll_other q c now s keys c' hc
   | unwatch c =>
     have hc : c ≠ c' := fun e => h (by rw [e]; rfl)
     rw [step_unwatch, conn_setConn]
